@@ -61,7 +61,7 @@ def peer_replay(ctx, pid, behaviours, tag, also=()):
     return r
 
 
-def script_replay(ctx, pid, behaviours, tag, mutate=0, expand=1, also=()):
+def script_replay(ctx, pid, behaviours, tag, mutate=0, expand=1, also=(), bodycuts=False):
     path = os.path.join(ctx.work, "script_%s.jsonl" % tag)
     out = os.path.join(ctx.work, "script_%s.out" % tag)
     vlib.write_jsonl(path, behaviours)
@@ -70,6 +70,8 @@ def script_replay(ctx, pid, behaviours, tag, mutate=0, expand=1, also=()):
         args += ["--mutate", str(mutate)]
     if expand > 1:
         args += ["--expand", str(expand)]
+    if bodycuts:
+        args += ["--bodycuts"]
     vlib.vh(args, timeout=2400, env={"VERIF_SEED": str(ctx.seed)})
     r = json.load(open(out))
     ctx.traces += r["runs"] + r["mutated_runs"]
@@ -78,7 +80,7 @@ def script_replay(ctx, pid, behaviours, tag, mutate=0, expand=1, also=()):
     return r
 
 
-def segment_check(ctx, pid, behaviours, tag):
+def segment_check(ctx, pid, behaviours, tag, also=()):
     path = os.path.join(ctx.work, "seg_%s.jsonl" % tag)
     out = os.path.join(ctx.work, "seg_%s.out" % tag)
     vlib.write_jsonl(path, behaviours)
@@ -86,7 +88,7 @@ def segment_check(ctx, pid, behaviours, tag):
     r = json.load(open(out))
     ctx.traces += r["segmentations"]
     ctx.extra["segmentations_compared"] = ctx.extra.get("segmentations_compared", 0) + r["segmentations"]
-    _collect(ctx, pid, r, behaviours, "script")
+    _collect(ctx, pid, r, behaviours, "script", also)
     return r
 
 
